@@ -34,7 +34,7 @@ class BasicContiguousElement
     using VectorTraits = detail::ContiguousVectorTraits<Parameter...>;
     using ElementTraits = detail::ElementTraitsT<Parameter...>;
     using AllocatorTraits = std::allocator_traits<Allocator>;
-    using StorageElementType = typename std::allocator_traits<Allocator>::value_type;
+    using StorageElementType = typename ElementTraits::StorageElementType;
     using StorageType = detail::AllocatorAwarePointer<
         typename std::allocator_traits<Allocator>::template rebind_alloc<StorageElementType>>;
     using Reference = typename VectorTraits::ReferenceType;
